@@ -187,7 +187,7 @@ func main() {
 	r := ev.New("C08")
 	r.Rule("one case = one generated input tuple: (key 16/24/32, iv, plaintext 0..80 by index plus larger sizes, layout) for cbc/gcm; one GCM message with every single-bit flip of ciphertext, tag, nonce and aad for gcm-tamper; one ciphertext (illegal length, random, or reference-CBC of a crafted padded tail) for cbc-hostile; one (byte string, block size) for unpad; one (d, b) for pad-roundtrip (the first 16320 indices enumerate every b in 1..255 x |d| in 1..64); one key size 0..40 for bad-key. distinct = distinct hash of the full input tuple; non-trivial = the golib call sequence ran to the end and every result was compared with the reference (empty un-padding inputs and valid-key controls are not counted)")
 	r.Assume("crypto/aes block Encrypt/Decrypt and crypto/cipher GCM Seal/Open are the standard AES and AES-GCM (cross-checked in engine kat against published SP 800-38A and GCM-spec vectors); CBC chaining and PKCS#7 are re-implemented in the harness from their definitions")
-	r.Assume("destinations are exactly AESCBCEncryptLen / AESCBCDecryptLen / AESGCMEncryptLen / AESGCMDecryptLen bytes long; aliasing is limited to the layouts the doc comments describe (pre-grown plaintext buffer, dst = ciphertext, dst = ct[:len-16]); IVs are 16 bytes; nothing is asserted about dst content after a failed decryption or about the error text")
+	r.Assume("destinations are exactly AESCBCEncryptLen / AESCBCDecryptLen / AESGCMEncryptLen / AESGCMDecryptLen bytes long; aliasing is limited to the layouts the doc comments describe (pre-grown plaintext buffer, dst = ciphertext, dst = ct[:len-16]) plus non-overlapping regions of one backing array (engine arena), which is separate memory; key/iv/nonce/aad buffers may be overwritten by the caller between calls (engine buffer-reuse); IVs are 16 bytes; nothing is asserted about dst content after a failed decryption or about the error text")
 	opt := ev.Opt{HangViolation: true, MaxCaseSeconds: 60}
 	r.Cases("kat", r.N(56, 560), opt, katCase)
 	r.Cases("cbc", r.N(120000, 4000000), opt, cbcCase)
@@ -197,6 +197,8 @@ func main() {
 	r.Cases("unpad", r.N(400000, 16000000), opt, unpadCase)
 	r.Cases("pad-roundtrip", r.N(rtCombos+40000, rtCombos+3000000), opt, padRoundTripCase)
 	r.Cases("bad-key", r.N(820, 41000), opt, badKeyCase)
+	r.Cases("arena", r.N(30000, 1000000), opt, arenaCase)
+	r.Cases("buffer-reuse", r.N(20000, 600000), opt, reuseCase)
 
 	// anti-vacuity floors (well below what a healthy quick run observes)
 	for k, v := range map[string]int64{
@@ -240,6 +242,9 @@ func main() {
 		"pad_block_aligned_input":               500,
 		"key_size_invalid_rejected":             2000,
 		"key_size_valid_control":                30,
+		"arena_cases":                           10000,
+		"reuse_steps":                           30000,
+		"reuse_stale_messages_rejected":         10000,
 	} {
 		r.Require(k, v)
 	}
